@@ -40,6 +40,7 @@ ALIAS_RULES = [
     ("C08", "C17", r"\.errormsg"),
     ("C08", "C09", r"\.lines\.rebuilt_from_scratch"),
     ("C08", "C10", r"\.dump_ostream\."),
+    ("C08", "C16", r"\.pitzer_tidy\.undefined_third_species"),
     ("C09", "C04", r"\.(close_output_files|safe_close)"),
     ("C09", "C05", r"\.punch\.(IPhreeqc_punch_msg|IPhreeqc_fpunchf|PHRQ_io_fpunchf)"),
     ("C10", "C14", r"\.(Rxn_read_raw|Rxn_read_modify|SB_read_modify|read_input\.RAW_MODIFY|StorageBin\.)"),
